@@ -4,6 +4,8 @@ import (
 	"bytes"
 	"encoding/hex"
 	"fmt"
+	"io"
+	"os"
 	"strings"
 
 	"github.com/btcsuite/btcd/btcec/v2"
@@ -14,6 +16,7 @@ import (
 	"github.com/btcsuite/btcd/chaincfg"
 	"github.com/btcsuite/btcd/txscript"
 	"github.com/ethereum/go-ethereum/core/types/goattypes"
+	"github.com/goatnetwork/goat/cmd/goatd/cmd/modgen"
 	bitcointypes "github.com/goatnetwork/goat/x/bitcoin/types"
 	relayertypes "github.com/goatnetwork/goat/x/relayer/types"
 
@@ -592,6 +595,82 @@ func c17Deposits(c *vc.Ctx, idx int) {
 	}
 }
 
+// c17Tool: the node's command-line tool hands out deposit addresses too (`goatd modgen bitcoin deposit-address`). The real
+// cobra command is run in-process for well-formed and malformed key inputs on every network; whenever it prints an address,
+// deposit checking must accept that address for that key and EVM address - which starts with accepting the key.
+func c17Tool(c *vc.Ctx, batch int) {
+	r := world.NewRand(c.Seed, "c17tool", batch)
+	for k := 0; k < c.Pick(24, 96); k++ {
+		net := c17Nets[k%4]
+		secret := world.Derive(c.Seed, "c17toolkey", batch*1000+k)
+		priv, pub := btcec.PrivKeyFromBytes(secret)
+		_ = priv
+		comp, xonly, uncomp := pub.SerializeCompressed(), schnorr.SerializePubKey(pub), pub.SerializeUncompressed()
+		badPrefix := append([]byte{0x05}, comp[1:]...)
+		inputs := []struct {
+			name, typ string
+			raw       []byte
+		}{
+			{"compressed key as secp256k1", "secp256k1", comp}, {"x-only key as schnorr", "schnorr", xonly},
+			{"x-only key as secp256k1", "secp256k1", xonly}, {"uncompressed key as secp256k1", "secp256k1", uncomp},
+			{"compressed key as schnorr", "schnorr", comp}, {"bad prefix byte", "secp256k1", badPrefix}, {"short key", "secp256k1", comp[:31]}, {"empty key", "secp256k1", nil},
+		}
+		in := inputs[k%len(inputs)]
+		evm := make([]byte, 20)
+		r.Read(evm)
+		cmd := modgen.Bitcoin()
+		cmd.SetArgs([]string{"deposit-address", "--pubkey", hex.EncodeToString(in.raw), "--pubkey-type", in.typ, "--network", net.Name, "--eth-address", "0x" + hex.EncodeToString(evm)})
+		cmd.SilenceUsage, cmd.SilenceErrors = true, true
+		out, runErr := captureStdout(func() error { return cmd.Execute() })
+		c.Eval(1)
+		addr := ""
+		if f := strings.Fields(out); runErr == nil && len(f) >= 3 && f[0] == "deposit" {
+			addr = f[2]
+		}
+		c.Nontrivial("tool input=%s net=%s answered=%v", in.name, net.Name, addr != "")
+		if addr == "" {
+			if k%len(inputs) < 2 {
+				c.Violation("the command-line tool refuses a well-formed relayer key", fmt.Sprintf("%s on %s: %v %q", in.name, net.Name, runErr, out), nil)
+			}
+			c.Count("tool_refusals", 1)
+			continue
+		}
+		c.Count("tool_addresses_handed_out", 1)
+		key := &relayertypes.PublicKey{Key: &relayertypes.PublicKey_Secp256K1{Secp256K1: in.raw}}
+		if in.typ == "schnorr" {
+			key = &relayertypes.PublicKey{Key: &relayertypes.PublicKey_Schnorr{Schnorr: in.raw}}
+		}
+		script, _, derr := scriptOfAddress(addr)
+		switch {
+		case derr != nil:
+			c.Violation("the command-line tool hands out an undecodable deposit address", fmt.Sprintf("%s: %v", addr, derr), nil)
+		case key.Validate() != nil:
+			c.Violation("the command-line tool hands out a deposit address for a key deposit checking refuses", fmt.Sprintf("%s (%d bytes) on %s -> %s; deposit checking says: %v", in.name, len(in.raw), net.Name, addr, key.Validate()), nil)
+		case bitcointypes.VerifyDespositScriptV0(key, evm, script) != nil:
+			c.Violation("deposit verification refuses the address the command-line tool hands out", fmt.Sprintf("%s on %s -> %s", in.name, net.Name, addr), nil)
+		}
+	}
+}
+
+// captureStdout runs f with os.Stdout redirected into a pipe and returns what was printed.
+func captureStdout(f func() error) (string, error) {
+	old := os.Stdout
+	rd, wr, err := os.Pipe()
+	if err != nil {
+		return "", f()
+	}
+	os.Stdout = wr
+	done := make(chan string, 1)
+	go func() {
+		bz, _ := io.ReadAll(rd)
+		done <- string(bz)
+	}()
+	ferr := f()
+	wr.Close()
+	os.Stdout = old
+	return <-done, ferr
+}
+
 func evmClass(e []byte) string {
 	switch {
 	case bytes.Equal(e, make([]byte, 20)):
@@ -614,7 +693,7 @@ func init() {
 			"cases 8-15: address strings with ground truth (P2PKH/P2SH/P2WPKH/P2WSH/P2TR on all 4 networks, bech32/bech32m mix-ups, checksum mutations, mixed case, short programs, pay-to-pubkey hex, junk) against DecodeBtcAddress: exact hand-built script or refusal; foreign = other bech32 prefix or other base58 version byte. " +
 			"cases 16-23: the same through the application on each network and key type: Query/DepositAddress answers verified, withdrawal requests end pending or cancelled with exactly one refund. Non-trivial = every judged address; distinct = (kind, network, verdict).",
 		Assume: []string{"btcutil's bech32/base58 codecs and btcec are correct (used to generate and to take apart address strings)", "all-uppercase bech32 strings are standard spellings (BIP173) and must decode; future witness versions are not judged"},
-		Cases:  func(tier string) int { return 24 + map[string]int{"quick": 4, "thorough": 16}[tier] },
+		Cases:  func(tier string) int { return 24 + map[string]int{"quick": 4, "thorough": 16}[tier] + 1 },
 		Run: func(c *vc.Ctx, i int) {
 			switch {
 			case i < pureBatches:
@@ -623,6 +702,8 @@ func init() {
 				c17Decode(c, i-pureBatches)
 			case i < 3*pureBatches:
 				c17App(c, i-2*pureBatches)
+			case i == 24+map[string]int{"quick": 4, "thorough": 16}[c.Tier]:
+				c17Tool(c, 0)
 			default:
 				// real deposits to addresses the node handed out (EVM addresses at the edges of the range among them)
 				c17Deposits(c, i-3*pureBatches)
